@@ -295,7 +295,12 @@ func vh01Result(tg tag, m message, err error) map[string]interface{} {
 
 func vh01Recv(wire []byte, msize uint32) map[string]interface{} {
 	tg, m, err := recv(ulog.Null, bytes.NewReader(wire), msize, msgDotLRegistry.get)
-	return vh01Result(tg, m, err)
+	res := vh01Result(tg, m, err)
+	if err == nil {
+		// as the server does after replying: the next message of this type is decoded into this object
+		msgDotLRegistry.put(m)
+	}
+	return res
 }
 
 // vh01Types lists the registered types; those registered by the package's own tests
@@ -321,6 +326,13 @@ func vh01Types() (ts []msgType, testOnly map[msgType]bool) {
 func vh01SendCase(o *vhOut, t msgType, g *vh01Gen, tg tag, msize uint32) []byte {
 	m := msgDotLRegistry.factories[t].create()
 	g.fill(reflect.ValueOf(m).Elem())
+	return vh01SendMsg(o, m, g.profile, tg, msize)
+}
+
+// vh01SendMsg: dump, real send, real recv of a prepared message.
+func vh01SendMsg(o *vhOut, m message, profile string, tg tag, msize uint32) []byte {
+	t := m.typ()
+	g := &vh01Gen{profile: profile}
 	sent := vh01DumpMsg(m) // before send: rreaddir.encode rewrites Count
 	var buf bytes.Buffer
 	if err := send(ulog.Null, &buf, tg, m); err != nil {
@@ -358,7 +370,7 @@ func TestVerifC01(t *testing.T) {
 		return sc
 	}()})
 	tags := []tag{0, 1, 255, 256, 65534, noTag}
-	nrandom := 4
+	nrandom := 2
 	if thorough {
 		nrandom = 40
 	}
@@ -374,9 +386,15 @@ func TestVerifC01(t *testing.T) {
 		}
 		// long strings, lists and payloads (only where the type has such a field: the generator
 		// places one long feature; types without it just give another random case)
-		strLens := []int{255, 256, 32767, 32768, 65535}
+		strLens := []int{256, 65535}
+		if thorough || ty == msgTwalk || ty == msgTversion || ty == msgRreaddir {
+			strLens = []int{255, 256, 32767, 32768, 65535}
+		}
 		listLens := []int{16, 1000}
 		payLens := []int{65536}
+		// an empty message after a full one: decoded into the object that held the full one
+		vh01SendCase(o, ty, &vh01Gen{r: r, profile: "max"}, 3, maximumLength)
+		vh01SendCase(o, ty, &vh01Gen{r: r, profile: "zero"}, 4, maximumLength)
 		if thorough {
 			listLens = append(listLens, 65535)
 			payLens = append(payLens, 1<<20)
@@ -455,7 +473,7 @@ func TestVerifC01(t *testing.T) {
 			}
 			stride := 1
 			if !thorough {
-				stride = 1 + len(w)/40
+				stride = 1 + len(w)/24
 			}
 			for i := 7 + r.Intn(stride); i < len(w); i += stride {
 				x := append([]byte(nil), w...)
@@ -492,9 +510,26 @@ func TestVerifC01(t *testing.T) {
 			}
 		}
 	}
+	// Rreaddir: entries whose cumulative size meets Count exactly, one less, one more
+	// (entries of 25, 26, 27 bytes: boundaries at 25, 51, 78)
+	for _, count := range []uint32{0, 1, 24, 25, 26, 50, 51, 52, 77, 78, 79, 1000, 1<<32 - 1} {
+		m := &rreaddir{Count: count, Entries: []Dirent{
+			{QID: QID{Type: TypeDir, Version: 1, Path: 2}, Offset: 1, Type: TypeDir, Name: "a"},
+			{QID: QID{Type: TypeRegular, Version: 3, Path: 4}, Offset: 2, Type: TypeRegular, Name: "bc"},
+			{QID: QID{Type: TypeSymlink, Version: 5, Path: 6}, Offset: 3, Type: TypeSymlink, Name: "def"}}}
+		vh01SendMsg(o, m, "exactfit", tag(count), maximumLength)
+	}
+	// a real Client and a real Server talking, both directions captured
+	for _, v := range []int{0, 7} {
+		vh01ConnScenario(o, v)
+	}
 	// every type byte with an empty body and with a 13-byte body
+	registered := map[msgType]bool{}
+	for _, ty := range types {
+		registered[ty] = true
+	}
 	for ty := 0; ty < 256; ty++ {
-		if testOnly[msgType(ty)] {
+		if testOnly[msgType(ty)] || (!thorough && !registered[msgType(ty)] && ty%6 != 0) {
 			continue
 		}
 		vh01Raw(o, vhFrame(byte(ty), 9, nil), maximumLength, "empty-body")
